@@ -85,5 +85,5 @@ pub fn run(run: &Arc<Run>) {
         run.inconclusive("fewer_than_10_percent_of_serialised_states_have_nonzero_compensation");
     }
     run.absorb(l);
-    run.require(&["smoke call judged", "approx feature exercised", "serialised states with non-zero compensation", "roundtrip:Arithmetic<f64>", "roundtrip:Unpaired<f32>", "roundtrip:proportion::Stats", "roundtrip:Confidence", "roundtrip:Interval<String>", "degenerate intervals round-tripped"]);
+    run.require(&["smoke call judged", "approx feature exercised", "serialised states with non-zero compensation", "roundtrip:Arithmetic<f64>", "roundtrip:Unpaired<f32>", "roundtrip:proportion::Stats", "roundtrip:Confidence", "roundtrip:Interval<String>", "degenerate intervals round-tripped", "states with counts beyond 2^32 round-tripped"]);
 }
